@@ -17,7 +17,7 @@ Definition kf3_vm : vm :=
     100;100;101;101;102;102;103;103;104;104;105;105;106;106;107;107;108;108;109;109;110;110;111;111;112;
     112;113;113;114;114;115;115;116;116;117;117;118;118;119;119;120;120;121;121;122;122;123;123;124;124;
     125;125;126;126;127;127;128;128;129;129;130;130;131;131;132;132;133;133;142;148] [None;
-    Some 142] [] [] [142]).
+    Some 142] [] [] [142] []).
 
 Definition kf3_heap : heap :=
   (mkHeap [Some (ONative 13509283684940209860);Some (ONative 9737378903717397781);
